@@ -15,7 +15,7 @@ from harness import joingen as jg, lib, semgen as sg
 warnings.filterwarnings("ignore")
 
 PREAMBLE = """From Coq Require Import ZArith String List Bool DecimalString.
-Require Import V.Base.PyLib V.Model.Graph V.Model.Sem V.Model.Single V.Model.Mult V.Model.Join V.Model.Plan V.Proofs.C02_proofs.
+Require Import V.Base.PyLib V.Base.Calendar V.Base.CalendarFacts V.Model.Graph V.Model.Sem V.Model.Single V.Model.Mult V.Model.Join V.Model.Plan V.Proofs.C02_proofs.
 Import ListNotations.
 Open Scope string_scope.
 """ + sg.SHOW + """
@@ -41,7 +41,7 @@ def gen_query(rnd, f, single_metric_model=True):
     names = [m["name"] for m in f["models"]]
     dims = []
     for _ in range(rnd.choice([0, 1, 1, 2])):
-        dims.append((rnd.choice(names), rnd.choice([jg.jcol("s0"), jg.jcol("c1"), jg.jcol("s0")])))
+        dims.append((rnd.choice(names), rnd.choice([jg.jcol("s0"), jg.jcol("c1"), jg.jcol("s0"), jg.jcol("s0"), jg.tdim(rnd.choice(["day", "week", "month", "quarter", "year"]))])))
     mm = rnd.choice(names)
     mets = []
     for _ in range(rnd.choice([1, 1, 2, 3])):
@@ -63,7 +63,7 @@ def field_names(q):
     dbm, mbm, drefs, mrefs = {}, {}, [], []
     for i, (m, e) in enumerate(q["dims"]):
         dbm.setdefault(m, []).append(("d%d" % i, e))
-        drefs.append("%s.d%d" % (m, i))
+        drefs.append("%s.%s" % (m, jg.dim_col(i, e)))
     for j, (m, a, e, fl) in enumerate(q["mets"]):
         mbm.setdefault(m, []).append(("m%d" % j, a, e, fl))
         mrefs.append("%s.m%d" % (m, j))
@@ -75,7 +75,7 @@ def real(f, q):
     L = jg.real_layer(f, mbm, dbm)
     sql = L.compile(metrics=mrefs, dimensions=drefs, filters=[jg.jsql(e, m + ".") for m, e in q["filters"]])
     cur = L.conn.execute(sql)
-    return [d[0] for d in cur.description], cur.fetchall(), sql
+    return [d[0] for d in cur.description], jg.canon_times(cur.fetchall()), sql
 
 
 def coq_term(f, q):
